@@ -24,7 +24,7 @@ ASSUMPTIONS = ['matching rule: (header port & port mask) == registered port and 
                'registered channel']
 REQUIRED = ['mon.packets', 'mon.must_deliveries', 'mon.mutations_executed', 'mon.raising_callbacks',
             'mon.caller_calls', 'mon.self_removals', 'mon.shared_callback_removals',
-            'mon.shared_callback_multi_pattern_deliveries']
+            'mon.shared_callback_multi_pattern_deliveries', 'mon.deliveries_through_the_public_wrappers']
 
 
 def cases(tier, seed):
@@ -363,6 +363,77 @@ def run_shared(ctx, rnd, label):
                 return
 
 
+def run_public(ctx, rnd, label):
+    """The same oracle through the public wrappers of a real Crazyflie object (add/remove_port_callback,
+    add/remove_header_callback) instead of the handler's own methods; application ports only."""
+    import logging
+    from cflib.crazyflie import Crazyflie
+    from cflib.crtp.crtpstack import CRTPPacket
+    logging.disable(logging.CRITICAL)
+    cf = Crazyflie()
+    link = _Link([])
+    cf.link = link
+    free_ports = (1, 9, 10, 11, 12, 14)
+    ncb = rnd.randrange(1, 4)
+    calls = []
+    cbs = [(lambda pk, i=i: calls.append(i)) for i in range(ncb)]
+    table = []
+    history = []
+    for step in range(rnd.randrange(3, 9)):
+        if table and rnd.random() < 0.35:
+            ent = rnd.choice(table)
+            i, port, pm, chan, cm = ent
+            if (pm, chan, cm) == (0xFF, 0, 0) and rnd.random() < 0.7:
+                cf.remove_port_callback(port, cbs[i])
+            else:
+                cf.remove_header_callback(cbs[i], port, chan, pm, cm)
+            table.remove(ent)
+            history.append(('remove',) + ent)
+        else:
+            i = rnd.randrange(ncb)
+            port = rnd.choice(free_ports)
+            if rnd.random() < 0.3:
+                ent = (i, port, 0xFF, 0, 0)
+                if ent in table:
+                    continue
+                cf.add_port_callback(port, cbs[i])
+            else:
+                pm = rnd.choice((0xFF, 0xFF, 0x0F, 0x0E, 0x08))
+                cm = rnd.choice((0xFF, 0x03, 0x01, 0x02, 0x00))
+                ent = (i, port & pm, pm, rnd.randrange(4) & cm, cm)
+                if ent in table:
+                    continue
+                if rnd.random() < 0.3 and (pm, cm) == (0xFF, 0xFF):
+                    cf.add_header_callback(cbs[i], ent[1], ent[3])          # default masks
+                else:
+                    cf.add_header_callback(cbs[i], ent[1], ent[3], pm, cm)
+            table.append(ent)
+            history.append(('add',) + ent)
+        for h in range(256):
+            link.packets = [CRTPPacket(h, [1])]
+            link.i = 0
+            del calls[:]
+            try:
+                cf.incoming.run()
+            except _Done:
+                pass
+            ctx.evals()
+            ctx.count('mon.packets')
+            hp, hc = (h >> 4) & 0xF, h & 3
+            want = [0] * ncb
+            for (i, port, pm, chan, cm) in table:
+                if port == (hp & pm) and chan == (hc & cm):
+                    want[i] += 1
+            got = [calls.count(i) for i in range(ncb)]
+            if sum(want):
+                ctx.nontrivial((label, step, h))
+                ctx.count('mon.deliveries_through_the_public_wrappers', sum(want))
+            if got != want:
+                ctx.violate('dispatch:public-wrappers:deliveries-differ-from-matching-registrations',
+                            {'label': label, 'header': h, 'history': history, 'table': table, 'want': want, 'got': got})
+                return
+
+
 def _after_self_removal(rid, start_table, script, got):
     if rid not in start_table:
         return False
@@ -478,6 +549,8 @@ def run(desc, ctx):
         if sc % 4 == 0:
             run_caller(ctx, rnd)
         run_shared(ctx, rnd, 'shared-seed%d-%d' % (desc['seed'], sc))
+        if sc % 6 == 0:
+            run_public(ctx, rnd, 'public-seed%d-%d' % (desc['seed'], sc))
         if sc == 0:
             ctx.sample({'registrations': regs, 'script': [(a, n, op, arg) for (a, n, op, arg) in script],
                         'raising': raising, 'headers': headers[:12]})
